@@ -269,3 +269,109 @@ Proof.
   exact (read_faults H zdecomp h f fuel sched sizes out st' s' st2 A B C).
 Qed.
 Print Assumptions C12_reader_faults.
+
+
+(** * T12.4 the download callbacks under EVERY schedule of write(2)/lseek(2) outcomes on the target
+    (Io/DlFaults.v: zck_header_cb / zck_write_chunk_cb -> multipart layer -> dl_write_range with
+    write_data (one retry after a short write), seek_data and zero_chunk routed through the
+    schedule), for every header line, fragment list and regex oracle.  The hash [H] and the regex
+    are universally quantified. *)
+From ZV Require Import Dl.DlWrite Dl.Multipart Dl.DlInv Io.DlFaults Io.DlFaultsProofs.
+
+(** the empty schedule is the fault-free model of C05/C17 *)
+Theorem C12_dl_faultfree : forall (H : bytes -> bytes) doff ridx rx_comp rx_exec frags x,
+  feed_frags_F H doff ridx rx_comp rx_exec x ([], []) frags =
+  (let '(x', rets, ok) := feed_frags H doff ridx rx_comp rx_exec x frags in (x', ([], []), rets, ok)).
+Proof. exact feed_frags_F_ff. Qed.
+Print Assumptions C12_dl_faultfree.
+
+(** (1) a transfer that ends with no error recorded — whatever short counts and retries the
+    schedule contained — has done exactly what the fault-free transfer does: same callback results,
+    same file, same flags, same parser state (so the C05 placement/verification theorems apply) *)
+Theorem C12_dl_no_error_is_faultfree : forall (H : bytes -> bytes) doff ridx rx_comp rx_exec frags x k x' k' rets ok,
+  feed_frags_F H doff ridx rx_comp rx_exec x k frags = (x', k', rets, ok) -> d_err (x_dl x') = false ->
+  feed_frags H doff ridx rx_comp rx_exec x frags = (x', rets, ok).
+Proof. exact feed_frags_F_clean. Qed.
+Print Assumptions C12_dl_no_error_is_faultfree.
+
+(** ... and in single-range mode "every callback returned the full count" already implies that no
+    error was recorded (in multipart mode see C12_dl_multipart_reports for the one exception) *)
+Theorem C12_dl_plain_success_is_faultfree : forall (H : bytes -> bytes) doff ridx rx_comp rx_exec frags x k x' k' rets,
+  x_boundary x = None -> d_err (x_dl x) = false -> Forall (fun fr => fr <> []) frags ->
+  feed_frags_F H doff ridx rx_comp rx_exec x k frags = (x', k', rets, true) -> d_err (x_dl x') = false.
+Proof. exact plain_success_clean. Qed.
+Print Assumptions C12_dl_plain_success_is_faultfree.
+
+(** (2) whatever the schedule: the state invariant (valid stays valid, write window inside the
+    current target while no error is recorded), every chunk flagged valid by the transfer hashes
+    to its digest in the file as it is, and no byte outside the extents of the requested, not yet
+    valid chunks changes — a partial write or a partial zero fill only touches a prefix of what the
+    complete one touches *)
+Theorem C12_dl_invariants_every_schedule : forall (H : bytes -> bytes) doff ridx rx_comp rx_exec tab0 frags x k x' k' rets ok,
+  disjoint_tab doff tab0 -> dl_wfF doff ridx tab0 (x_dl x) -> verified H doff tab0 (x_dl x) ->
+  feed_frags_F H doff ridx rx_comp rx_exec x k frags = (x', k', rets, ok) ->
+  dl_wfF doff ridx tab0 (x_dl x') /\ verified H doff tab0 (x_dl x') /\
+  (forall off, (forall t c, nth_error tab0 t = Some c -> fillable ridx tab0 t -> ~ in_ext doff c off) ->
+               fget (d_file (x_dl x')) off = fget (d_file (x_dl x)) off).
+Proof. exact feed_frags_F_inv. Qed.
+Print Assumptions C12_dl_invariants_every_schedule.
+
+Theorem C12_dl_invariants_init : forall doff ridx tab0 fpos file,
+  dl_wfF doff ridx tab0 (mkDl false 0 0 None None None fpos file tab0).
+Proof. exact dl_wfF_init. Qed.
+Print Assumptions C12_dl_invariants_init.
+
+Theorem C12_dl_valid_chunks_kept : forall (H : bytes -> bytes) doff ridx rx_comp rx_exec tab0 frags x k x' k' rets ok t c,
+  disjoint_tab doff tab0 -> dl_wfF doff ridx tab0 (x_dl x) ->
+  feed_frags_F H doff ridx rx_comp rx_exec x k frags = (x', k', rets, ok) ->
+  nth_error tab0 t = Some c -> c_valid c = VValid ->
+  (exists c', nth_error (d_tab (x_dl x')) t = Some c' /\ c_valid c' = VValid /\
+              c_start c' = c_start c /\ c_len c' = c_len c /\ c_digest c' = c_digest c) /\
+  fread (d_file (x_dl x')) (doff + c_start c) (N.to_nat (c_len c)) =
+  fread (d_file (x_dl x)) (doff + c_start c) (N.to_nat (c_len c)).
+Proof. exact feed_frags_F_valid_kept. Qed.
+Print Assumptions C12_dl_valid_chunks_kept.
+
+(** (3) a fault is reported.  Single-range mode: the callback during which the error state got set
+    returns a short count.  Every mode: once the error state is set the next callback refuses
+    without touching anything.  Multipart mode: the callback that set the error returns 0, except
+    (a) on the fault-free "no range found" exit (set_error + return l) and (b) when the error came
+    from a dl_write_range call with NO bytes (a part announced with length 0), whose return value 0
+    equals the requested 0 — then the next callback reports it. *)
+Theorem C12_dl_plain_reports : forall (H : bytes -> bytes) doff ridx rx_comp rx_exec x k frag x' k' ok r,
+  x_boundary x = None -> frag <> [] ->
+  write_cb_F H doff ridx rx_comp rx_exec x k frag = (x', k', ok, r) -> d_err (x_dl x') = true -> ok = false.
+Proof. exact plain_cb_reports. Qed.
+Print Assumptions C12_dl_plain_reports.
+
+Theorem C12_dl_error_state_refuses : forall (H : bytes -> bytes) doff ridx rx_comp rx_exec x k frag,
+  d_err (x_dl x) = true -> frag <> [] ->
+  exists r, write_cb_F H doff ridx rx_comp rx_exec x k frag = (x, k, false, r).
+Proof. exact write_cb_F_after_error. Qed.
+Print Assumptions C12_dl_error_state_refuses.
+
+Theorem C12_dl_multipart_reports : forall (H : bytes -> bytes) doff ridx rx_comp rx_exec x k frag x' k' ok r bd,
+  x_boundary x = Some bd -> frag <> [] -> d_err (x_dl x) = false ->
+  write_cb_F H doff ridx rx_comp rx_exec x k frag = (x', k', ok, r) -> d_err (x_dl x') = true ->
+  ok = false \/ r = MNoRange \/ zero_call_err H doff ridx.
+Proof. exact mp_cb_reports. Qed.
+Print Assumptions C12_dl_multipart_reports.
+
+(** a failure without error state is a checksum mismatch with the chunk completely zero-filled *)
+Theorem C12_dl_mismatch_zeroed : forall (H : bytes -> bytes) doff ridx s k bs s' k',
+  dlw_F H doff ridx s k bs = (s', k', DFail) -> d_err s' = false ->
+  exists t c, d_tgt s' = Some t /\ nth_error (d_tab s') t = Some c /\ c_valid c = VFailed /\
+    fread (d_file s') (doff + c_start c) (N.to_nat (c_len c)) = repeat 0 (N.to_nat (c_len c)).
+Proof. exact dlw_F_fail_zeroed. Qed.
+Print Assumptions C12_dl_mismatch_zeroed.
+
+(** Non-vacuity with concrete schedules (closed by vm_compute in Io/DlFaultsProofs.v, Module Ex):
+    [short_write_retry] ([WShort 1; WFull]: the fault-free result), [write_fails_mid_chunk]
+    ([WFull; WShort 1; WShort 0]), [write_error_mid_chunk] ([WFull; WErr]: DFail, error set, a prefix in
+    the file, next call refused), [seek_fails] (([], [false])), [mismatch_zero_fill_fails],
+    [zero_part_swallows] (the multipart exception above), [s0_wf] (the invariant hypotheses hold). *)
+Example C12_ex_dl_write_error_mid_chunk :
+  let '(s', k', r) := Ex.run Ex.s0 ([WFull; WErr], []) (Ex.dA ++ Ex.dB) in
+  r = DFail /\ d_err s' = true /\ d_file s' = [8; 1; 2; 9; 9; 9; 7] /\
+  map c_valid (d_tab s') = [VValid; VUnknown; VValid].
+Proof. vm_compute. repeat split; reflexivity. Qed.
